@@ -155,6 +155,15 @@ C_FalseAccept(ev) ==
      /\ ev.s # T[ev.bprev].s /\ ev.pc = T[ev.bprev].pc)
   => LET m == SpecOutcomeAt(ev.bprev).m IN
      S!DigestTail(m, T[ev.bprev].out, T[ev.bprev].pl, Len(T[ev.bprev].s)) # S!DigestTail(m, ev.out, ev.pl, Len(ev.s))
+\* C03, verification form: with the SAME setting string (a stored hash), a phrase whose significant projection differs
+\* from the enrolled one never reproduces the whole result
+A_NoFalseAccept(ev) ==
+  ev.bprev > 0 /\ ev.bprev < l /\ IsHashEv(T[ev.bprev].e) /\ ObservedSuccess(T[ev.bprev]) /\ ObservedSuccess(ev)
+     /\ ev.s = T[ev.bprev].s /\ SpecOutcomeAt(l).k # "fail" /\ SpecOutcomeAt(ev.bprev).k # "fail"
+     /\ SpecOutcomeAt(l).m = SpecOutcomeAt(ev.bprev).m
+     /\ S!QuirkFree(SpecOutcomeAt(l).m, ev.pc) /\ S!QuirkFree(SpecOutcomeAt(l).m, T[ev.bprev].pc)
+     /\ S!PhraseKey(SpecOutcomeAt(l).m, ev.pc, Len(ev.s)) # S!PhraseKey(SpecOutcomeAt(l).m, T[ev.bprev].pc, Len(ev.s))
+C_NoFalseAccept(ev) == A_NoFalseAccept(ev) => ev.out # T[ev.bprev].out
 \* the converse (documented insignificance) is not a property here: counted as a divergence only
 C_SameKeySame(ev) ==
   (ev.bprev > 0 /\ ev.bprev < l /\ IsHashEv(T[ev.bprev].e) /\ ObservedSuccess(T[ev.bprev]) /\ ObservedSuccess(ev)
@@ -201,7 +210,7 @@ C_Handle(ev) ==
 C_Balanced(ev) == ev.livemap = 0 /\ ev.badfree = 0 /\ ev.liveheap = ev.hlive
 
 AntNames == {"FailClosed", "FailClosedStaleErrno", "ShortSizes", "Wiped", "Result", "ResultNonzeroErrno", "UninitDependence", "AsIfAlone",
-             "Grow", "Handle", "RoundTrip", "Distinct", "FalseAcceptProbe", "Literal", "Released", "Balanced", "Shape", "KdfParams"}
+             "Grow", "Handle", "RoundTrip", "Distinct", "FalseAcceptProbe", "Literal", "Released", "Balanced", "Shape", "KdfParams", "NoFalseAccept"}
 \* (the argument is forced with TLCEval at the call site: a lazy argument would be re-evaluated for every n)
 AddAnts(f, a) == [n \in AntNames |-> f[n] + (IF n \in a THEN 1 ELSE 0)]
 V(p, n) == [l |-> l, p |-> p, n |-> n]
@@ -232,6 +241,7 @@ JudgeHash(ev) ==
               \cup (IF C_RoundTrip(ev) THEN {} ELSE {V("C01", "RoundTrip")})
               \cup (IF C_Distinct(ev) THEN {} ELSE {V("C03", "Distinct")})
               \cup (IF C_FalseAccept(ev) THEN {} ELSE {V("C03", "FalseAccept")})
+              \cup (IF C_NoFalseAccept(ev) THEN {} ELSE {V("C03", "NoFalseAccept")})
               \cup (IF C_Handle(ev) THEN {} ELSE {V("C14", "Handle")})
               \cup (IF C05_KdfParams(ev, oc) THEN {} ELSE {V("C05", "KdfParams")})
               \cup (IF C_Literal(ev) THEN {} ELSE {V("C10", "Literal")})
@@ -255,6 +265,7 @@ JudgeHash(ev) ==
               \cup (IF A_RoundTrip(ev) THEN {"RoundTrip"} ELSE {})
               \cup (IF A_Distinct(ev) THEN {"Distinct"} ELSE {})
               \cup (IF A_FalseAcceptProbe(ev) THEN {"FalseAcceptProbe"} ELSE {})
+              \cup (IF A_NoFalseAccept(ev) THEN {"NoFalseAccept"} ELSE {})
               \cup (IF ev.gs = 1 THEN {"Literal"} ELSE {})
               \cup (IF A_Released(ev) THEN {"Released"} ELSE {})
               \cup (IF AnyFault(ev) THEN {"Balanced"} ELSE {})
